@@ -18,21 +18,24 @@ from .c08_store import Store, FakeTransport
 LEAN_TARGETS = ['DawgieVerif.Model.StoreIO']
 
 MANIFEST = dict(
-    text='Lean theorems over an executable model of the shelve catalogue (five name tables with '
-         'their id indices, prime table, construct/dissect on character lists): table_bij (every '
-         'history keeps name<->id a gap-free bijection), reopen_same (any permutation of the '
-         'persisted dictionary re-indexes to the same list), chain (every primary key resolves '
-         'task->algorithm->state vector->value with ids in range), next_gt, remove_exact / '
-         'trace_exact / reset_exact (exact names, never prefix-equal ones), by invariant over all '
-         'histories; the subset filters, tokens, next formula and append id are regenerated from '
-         'the source on every run; the model is tied to the real shelve code by a correspondence '
-         'run on real shelve files.',
-    note='Trusted: Lean kernel; axioms propext/Classical.choice/Quot.sound only; tools/gen_c08.py; '
-         'harness fakes (no listening socket). Names are restricted to NameOK = no colon character '
-         '(token-free names such as "x:parent" already break dissect; shown as examples); dbm.dumb '
-         'iteration order = insertion order; PostgreSQL backend not tied; reopen() (client mode) '
-         'not modelled; reset falls back to every algorithm of the task when the named one has no '
-         'entry at that run (stated in reset_exact, reported as suspicious).',
+    text='Lean theorems over an executable model of the shelve catalogue (five name tables with their id '
+         'indices, primary table, construct/dissect on character lists), for every history of opens, closes, '
+         'additions, registrations, stores, loads and removals: table_bij (name<->id is a gap-free bijection '
+         'in every table), reopen_same / reopen_roundtrip (any iteration order of the persisted dictionary '
+         're-indexes to the same list; close+open restores the catalogue), chain_ids / chain (every primary '
+         'key resolves task->algorithm->state vector->value, ids in range), next_gt, remove_exact, trace_exact '
+         '/ trace_silent, reset_exact (exact names, never prefix-equal ones), names_roundtrip and subset_exact '
+         '(dissect undoes construct; the subset filter accepts exactly the named row). The subset filters, '
+         'tokens, next formula, append id, __to_key call table are regenerated from the source on every run; '
+         'the model is tied to the real shelve code by a correspondence run on real shelve files and a '
+         'shadow-catalogue monitor.',
+    note='Trusted: Lean kernel; axioms propext/Classical.choice/Quot.sound only; tools/gen_c08.py; harness '
+         'fakes (no listening socket). Names are restricted to NameOK = no colon character: merely '
+         'token-free names such as "x:parent" already break dissect (example in Props/C08). dbm.dumb '
+         'iteration order = insertion order is relied on only for the order of reset steps. reopen() (client '
+         'mode through the socket) is not modelled; trace_exact does not claim that the latest version is '
+         'chosen; reset falls back to every algorithm of the task when the named one has no entry at that '
+         'run (stated in reset_exact, reported as suspicious). PostgreSQL backend not tied.',
     technique='Lean 4 proof (invariant by induction over histories + string lemmas) + differential correspondence',
     design='7/C08',
 )
@@ -625,7 +628,22 @@ CORPUS = [
     [['open'], ['store', 1, 'X', 't', 'A', V1, '1', V1, '1', V1, 1], ['store', 1, 'X', 't', 'A', V1, 'sv', V1, 'v', V1, 2],
      ['remove', 1, 'X', 't', 'A2', '1', '1'], ['remove', 1, 'X', 't', 'A', '11', '1'], ['remove', 1, 'X', 't', 'A', '1', '11'],
      ['keys'], ['dump']],
+    # two-digit ids: "(5, 0, 0, 1" is a string prefix of "(5, 0, 0, 10, ...", "1:parent___" of nothing else
+    [['open']] + [['store', 5, 'X', 't', 'B%d' % i, [1, 0, i], 'sv', [1, 0, i], 'v', V1, i] for i in range(12)]
+    + [['reset', 5, 'X', 't', 'B1', ['sv']], ['reset', 5, 'X', 't', 'B10', ['sv']], ['trace', [['t', 'B1'], ['t', 'B10']]],
+       ['remove', 5, 'X', 't', 'B1', 'sv', 'v'], ['keys'], ['versions'], ['close'], ['open'], ['next'], ['dump']],
 ]
+
+
+def file_corpus(pid):
+    """operation lists of /verif/corpus/<pid>/*.json (minimised past failures)"""
+    import os
+    d = os.path.join(common.VERIF, 'corpus', pid)
+    out = []
+    for f in sorted(os.listdir(d)) if os.path.isdir(d) else []:
+        if f.endswith('.json'):
+            out.append(json.load(open(os.path.join(d, f)))['ops'])
+    return out
 
 
 def check_history(rn, res, ops, tag, lines, pending, mode='direct'):
@@ -742,7 +760,7 @@ def run(ctx, res):
     res.assumptions = list(TRUSTED)
     lines, pending = [], []
     found = []
-    for ops in CORPUS:
+    for ops in CORPUS + file_corpus('C08'):
         found += [(p, ops, 'direct') for p in check_history(rn, res, ops, 'corpus', lines, pending)]
     rn.S.install_loopback()
     for ops in CORPUS[:4]:
@@ -758,7 +776,7 @@ def run(ctx, res):
     if thorough:
         # exhaustive small scope: every history of length 4 over a collision-rich alphabet
         alpha = [['store', 1, 'X', 't', 'A', V1, 'sv', V1, 'v', V1, 1], ['store', 1, 'X', 't', 'A2', V2, 'sv', V1, 'v', V1, 2],
-                 ['store', 2, 'X', 't', 'A', V2, 'sv_', V1, 'v', V1, 3], ['remove', 1, 'X', 't', 'A', 'sv', 'v'],
+                 ['remove', 1, 'X', 't', 'A', 'sv', 'v'],
                  ['remove', 1, 'X', 't', 'A2', 'sv', 'v'], ['trace', [['t', 'A']]], ['reset', 1, 'X', 't', 'A', ['sv']],
                  ['close'], ['open']]
         for seq in itertools.product(alpha, repeat=4):
